@@ -100,7 +100,9 @@ def run(ctx):
             return rt / prm.get("c", 2.0 if filt == "SharpKEllipsoid" else 2.5) if filt.startswith("SharpK") else rt   # documented defaults c = 2.5 / 2.0
         mnl_cases = [(lo, hi, z, dc, "TopHat", {}) for (lo, hi, z, dc) in
                      [(10.0, 15.0, 0.0, 1.686), (13.5, 15.5, 0.0, 1.686), (13.5, 15.5, 1.0, 1.686), (6.0, 9.0, 0.0, 1.686), (10.0, 15.0, 1.0, 1.686), (14.0, 15.5, 2.0, 1.686),
-                      (13.5, 15.5, 0.0, 1.5), (6.0, 9.0, 0.0, 2.0), (14.0, 15.5, 1.0, 1.4), (10.0, 15.0, 0.0, 1.5)]]
+                      (13.5, 15.5, 0.0, 1.5), (6.0, 9.0, 0.0, 2.0), (14.0, 15.5, 1.0, 1.4), (10.0, 15.0, 0.0, 1.5),
+                      # the non-linear mass many decades away from the tabulated range (high redshift; a grid of tiny masses)
+                      (10.0, 15.0, 8.0, 1.686), (10.0, 15.0, 12.0, 1.686), (1.0, 5.0, 0.0, 1.686)]]
         mnl_cases += [(13.5, 15.0, 0.0, 1.686, "SharpK", {}), (6.0, 8.0, 0.0, 1.686, "SharpK", {}), (13.5, 15.0, 0.5, 1.686, "SharpK", {"c": 2.0}), (10.0, 15.0, 0.0, 1.686, "SharpK", {}),
                       (13.5, 15.0, 0.0, 1.686, "SharpKEllipsoid", {}), (13.5, 15.5, 0.0, 1.686, "Gaussian", {}), (6.0, 8.0, 0.0, 1.686, "Gaussian", {}), (10.0, 15.0, 1.0, 1.686, "Gaussian", {})]
         for (lo, hi, z, dc, filt, fprm) in mnl_cases:
@@ -165,7 +167,7 @@ def run(ctx):
     out["coverage"] = {
         "evaluations": len(reqs) + ncase * 8 + nmnl, "programs": len(exp), "disagreements_checked": len(exp), "traces_validated_against_impl": len(exp),
         "distinct_nontrivial": ncase,
-        "rule": "random compatible combinations of transfer, filter, growth, fit (18 fits) and mass-definition models, cosmology overrides, z, sigma_8, n, delta_c, mass grids (integer and float arguments); each: 14 regenerated bodies at Float vs real, identity with independent rho0, fit vs stand-alone component on the framework's own inputs, sub-grid embedding; 18 mass_nonlinear cases (inside/outside the grid, z>=0, four filters; sigma at the independently written radius of the returned mass equals delta_c); Behroozi correction at 7 redshifts (up to z = 12)",
+        "rule": "random compatible combinations of transfer, filter, growth, fit (18 fits) and mass-definition models, cosmology overrides, z, sigma_8, n, delta_c, mass grids (integer and float arguments); each: 14 regenerated bodies at Float vs real, identity with independent rho0, fit vs stand-alone component on the framework's own inputs, sub-grid embedding; 21 mass_nonlinear cases (inside, outside and many decades outside the grid, z>=0, four filters; sigma at the independently written radius of the returned mass equals delta_c); Behroozi correction at 7 redshifts (up to z = 12)",
         "gen_disagreements": nbad, "configs": ncase, "samples": [{"body": e[0], "config": str(e[2])[:200], "impl": e[1][:2].tolist()} for e in exp[:2]],
         "search": "oracles on the real MassFunction",
     }
